@@ -62,17 +62,51 @@ def norm_outcome(o):
     return o
 
 
+def mask(x):
+    """object addresses inside string values (a function or instance that was interpolated into a string)"""
+    if isinstance(x, dict):
+        return {k: (ADDR.sub("[MEMADDR]", v) if k == "s" and isinstance(v, str) else mask(v)) for k, v in x.items()}
+    if isinstance(x, list):
+        return [mask(v) for v in x]
+    return x
+
+
 def norm_events(ev):
     out = []
     for e in ev:
         if isinstance(e, list) and len(e) == 2 and e[0] == "print" and isinstance(e[1], str):
             out.append(["print", ADDR.sub("[MEMADDR]", e[1])])
         else:
-            out.append(e)
+            out.append(mask(e))
     return out
 
 
-GENERATORS = ["C08", "C09", "C12", "C14", "C15", "C16", "C01"]
+GENERATORS = ["C08", "C09", "C12", "C14", "C15", "C16", "C01", "NAT"]
+
+# "NAT": built-in methods and operators called with awkward arguments (too long, empty, negative, fractional, infinite, of the
+# wrong type, too many, too few); whatever each call does - a value or an error - it must do in every build alike
+NAT_RECEIVERS = ['""', '"a"', '"abc"', '"héllo"', '"a,b,,c"', '"12.5"', "[]", "[1, 2, 3]", '[[1], "x", nil]', "()", "(1, 2, 3)", '(1, ("a", [2]))',
+                 "{}", '{1: "a", "k": [2], (1, 2): 3}', "0..3", "2..2", "5..1", "-2..2", "7", "nil", "true", "1.5"]
+NAT_METHODS = ["len", "iter", "is_alpha", "is_digit", "is_hexdigit", "count_chars", "char_byte_index", "find", "replace", "split",
+               "starts_with", "ends_with", "to_num", "to_bytes", "to_code_points", "push", "pop", "has_key", "get", "insert", "remove",
+               "clear", "keys", "values", "items", "next", "map", "filter", "collect", "derives"]
+NAT_ARGS = ["0", "1", "-1", "2", "3", "100", "0.5", "-0.0", "1 / 0", "0 / 0", "nil", '""', '"a"', '"abc"', '"abcdef"', '","', '"bc"', "[]", "[1]", "(1,)",
+            "true", "0..2", "2..1", "-1..1", "1..100", "|x| { return x; }", "Num", "String"]
+NAT_OPS = ["{r}[{a}]", "{r}[{a}..{b}]", "{r} + {a}", "{r} == {a}", "{r} < {a}", "-{r}", "!{r}", '"${{{r}}}/${{{a}}}"', "String.from({r})",
+           "String.from_ascii({a})", "String.from_utf8([{a}, {b}])", "String.from_code_points([{a}])", "type({r})", "({r}, {a})[{b}]"]
+
+
+def nat_program(seed):
+    rng = Rng(seed)
+    out = ["fn show(v) { if type(v) == Num || type(v) == String || type(v) == Bool || v == nil { return v; } return type(v); }"]
+    for i in range(rng.range(20, 60)):
+        r = rng.choice(NAT_RECEIVERS)
+        if rng.chance(0.7):
+            expr = "%s.%s(%s)" % (r, rng.choice(NAT_METHODS), ", ".join(rng.choice(NAT_ARGS) for _ in range(rng.weighted([(3, 0), (5, 1), (3, 2), (1, 3)]))))
+        else:
+            expr = rng.choice(NAT_OPS).format(r=r, a=rng.choice(NAT_ARGS), b=rng.choice(NAT_ARGS))
+        out.append('try { print(("ev", %d, show(%s))); } catch e%d { print(("ev", %d, "error", type(e%d))); }' % (i, expr, i, i, i))
+    return "\n".join(out) + "\n"
 
 
 def generated(seed, idx):
@@ -95,6 +129,8 @@ def generated(seed, idx):
                 continue
             out.append(c08.build_scenario(ir, tape, faults))
         return fam, out
+    if fam == "NAT":
+        return fam, [{"programs": [{"kind": "snippet", "source": nat_program(derive(seed, "C10-NAT", sub))}], "tape": [], "faults": {}}]
     if fam == "C09":
         sc = c09.PROP.generate(derive(seed, "C10-C09"), sub, "quick")
         src, modules = c09.render(sc["ir"])
@@ -139,7 +175,7 @@ class C10:
     TIMEOUT = 40.0
     RULE = ("case = either one script of the repository's test corpus or of 7 boundary-value scripts of our own (all of them, every run; printed text and outcome compared, addresses "
             "normalised) or one generated scenario of the C08/C09/C12/C14/C15/C16/C01 generators (program(s) + decision tape + fault plan "
-            "+ simulated file system); every case is executed in each build configuration of the tier and its typed event history, "
+            "+ simulated file system) or of a generator that calls every built-in method and operator with awkward arguments (NAT); every case is executed in each build configuration of the tier and its typed event history, "
             "outcome kind and error messages must equal those of the checked build. non-trivial = the history has >= 3 events; "
             "distinct = distinct scenario hash. Configurations: quick = checked, release, release+safe_active_fiber+debug_stress_gc; "
             "thorough = those plus release with each safe_* switch alone, debug_stress_gc alone, all switches together, and dev")
